@@ -15,7 +15,7 @@ harness observes `live` on the real code on every run (it is `false` on the pinn
 assertion names the value type, provisioned matchers are pointers).  Everything is proved for
 both values.
 -/
-import CaddyModel.C19.Lemmas
+import CaddyModel.C19.WildLemmas
 import CaddyModel.C19.ClientAuth
 import CaddyModel.C19.Caddyfile
 import CaddyModel.Gen.Glue
@@ -323,6 +323,56 @@ theorem client_auth_not_bypassed (ps : List Policy) (sites : List Bytes) (sni ho
   rw [hk] at h1; cases h1
   rw [first_match_dead_index, first_match_dead_index]
   exact firstMatchFrom_congr ⟨sni, v⟩ ⟨site, v⟩ ps 0 h2 rfl
+
+/-! ### D3. wildcard sites: the HTTP and the TLS reading of a pattern agree
+
+Since /repo 7aa47c3 a `*` label of the host matcher stands for exactly one non-empty label, as in
+certmagic.MatchWildcard (before, it also matched an empty label:
+`Witness.wildcard_empty_label_old_code_fails`).  For every site whose name is exact or whose `*`
+labels form a left-most prefix (`*.example.com`, `*.*.test`, `*` — the only wildcard shape the
+TLS side can match at all; `x.*.test` as an sni name matches nothing, see props.d observation): -/
+
+/-- **strict SNI-Host binds every site to its own connection policy**: if a TLS request is routed
+    to the handler of site `site`, then the sni matcher of a connection policy `sni [site]`
+    accepts the connection's server name — the policy written for the site (client auth!) is one
+    that applies to the connection. -/
+theorem strict_binds_site_policy (sites : List Bytes) (sni host site : Bytes) (k : Nat)
+    (hsni : noBrackets sni = true)
+    (hk : sites[k]? = some site) (hok : isAscii site = true)
+    (hshape : noStar site = true ∨ leftmostWildcard site = true)
+    (hs : serve true sites (some sni) host = .handler (some k)) :
+    sniMatch sni [site] = true := by
+  obtain ⟨hascii, he, hr⟩ := serve_strict_handler sites sni host _ hs
+  have hx := strict_pass_not_bracketTrimmed sites sni host _ hsni hs
+  have hrh : routingHost host = enforcementHost host := by simpa [bracketTrimmed] using hx
+  have hr : routeFrom 0 (routingHost host) sites = some k := by simpa [route] using hr.symm
+  obtain ⟨_, site', h1, h2⟩ := routeFrom_some _ _ _ _ hr
+  have h1' : sites[k]? = some site' := by simpa using h1
+  rw [hk] at h1'; cases h1'
+  have hfold : foldKey sni = foldKey (routingHost host) := by rw [hrh]; exact (equalFold_iff _ _).mp he
+  have hmw : matchWildcard sni site = true := by
+    cases hc : site.contains cStar with
+    | false =>
+      rw [hostMatch_noStar _ _ hc] at h2
+      have e : foldKey sni = foldKey site := hfold.trans ((equalFold_iff _ _).mp h2)
+      rw [foldKey_ascii sni hascii, foldKey_ascii site hok] at e
+      exact matchWildcard_self_fold sni site e
+    | true =>
+      rcases hshape with hns | hlw
+      · exfalso; unfold noStar at hns; rw [hc] at hns; cases hns
+      · exact matchWildcard_of_hostMatch sni (routingHost host) site hlw hc hok hascii hfold h2
+  simp [sniMatch, hmw]
+
+/-- … so the policy `sni [site]` (whatever its other settings) accepts the hello of that connection -/
+theorem site_policy_accepts_connection (sites : List Bytes) (sni host site : Bytes) (k : Nat)
+    (v : Nat → Bool) (drop ca : Bool)
+    (hsni : noBrackets sni = true)
+    (hk : sites[k]? = some site) (hok : isAscii site = true)
+    (hshape : noStar site = true ∨ leftmostWildcard site = true)
+    (hs : serve true sites (some sni) host = .handler (some k)) :
+    (⟨[.sni [site]], drop, ca⟩ : Policy).matches ⟨sni, v⟩ = true := by
+  have := strict_binds_site_policy sites sni host site k hsni hk hok hshape hs
+  simp [Policy.matches, Matcher.eval, this]
 
 /-! ## E. which policies "require client certificates": every `client_authentication` block
 
@@ -675,6 +725,11 @@ example : (∃ p ∈ exPolicies, p.clientAuth = true) ∧ noBrackets nAup = true
     (∀ s ∈ [nA], noStar s = true) ∧ (∀ s ∈ [nA], isAscii s = true) ∧
     serve (effectiveStrict none exPolicies) [nA] (some nAup) (nA ++ cColon :: [56, 48]) = .handler (some 0) := by
   refine ⟨⟨_, List.mem_cons_of_mem _ (List.mem_cons_of_mem _ (List.mem_cons_self ..)), rfl⟩, by decide, by decide, by decide, by decide⟩
+-- wildcard sites: *.t routes x.t (and X.T:443) when the SNI is x.t; `.t` is routed by neither reading
+example : leftmostWildcard nWild = true ∧ noStar nWild = false ∧ leftmostWildcard [120, 46, 42, 46, 116] = false := by decide
+example : serve true [nWild] (some [120, 46, 116]) ([88, 46, 84] ++ cColon :: [52, 52, 51]) = .handler (some 0) ∧
+    sniMatch [120, 46, 116] [nWild] = true := by decide
+example : serve true [nWild] (some [46, 116]) [46, 116] = .handler none ∧ sniMatch [46, 116] [nWild] = false := by decide
 -- a non-ASCII SNI is refused whatever the Host
 example : serve true [[115, 46, 116]] (some [128, 46, 116]) [115, 46, 116] = .misdirected ∧
     serve true [[115, 46, 116]] (some [128, 46, 116]) [128, 46, 116] = .misdirected := by decide
